@@ -408,6 +408,10 @@ def run(ctx):
     # R11.12 = R20.13 seen from the closure side: an index in _global_types that names no type (seed S10-C11, the same edit as S9-C20)
     from .C20 import merged_entities_keep_the_surviving_index
     merged_entities_keep_the_surviving_index(ctx, rid="R11.12")
+    # R11.13 = R13.6 from the closure side (seed S11-C11, the same edit as S8-C20): types merged under the wrong name leave
+    # wrappers whose recorded types are not the types of the generated code
+    from .C13 import _local_map_keys_agree
+    _local_map_keys_agree(ctx, rid="R11.13")
 
 def _registered_hash(ctx):
     """R11.5: names are made unique through the _wrappers_by_hash registry; the
